@@ -236,7 +236,9 @@ impl CaseInput for RespCase {
 
     fn exec(&self) -> Exec {
         let calls = Cell::new(0u32);
-        let reply = response(self.status, self.content_type.as_deref(), &self.body);
+        // half of the replies also carry headers that no property gives a meaning to
+        let salt = (self.status as u64).wrapping_mul(0x9E37_79B9).wrapping_add(self.body.len() as u64 * 131 + self.content_type.as_ref().map(|c| c.len() as u64).unwrap_or(3));
+        let reply = if salt & 16 == 16 { with_irrelevant_headers(response(self.status, self.content_type.as_deref(), &self.body), salt >> 5) } else { response(self.status, self.content_type.as_deref(), &self.body) };
         let http = |_r: HttpRequest| -> Result<HttpResponse, FakeErr> {
             calls.set(calls.get() + 1);
             if self.transport_error {
